@@ -53,3 +53,16 @@ Theorem C17_rename_chain_resolved : forall h m g a b c,
   lookup_last (rename_step h m g) a = Some c /\ lookup_last (rename_step h m g) b = Some c.
 Proof. exact rename_chain_resolved. Qed.
 Print Assumptions C17_rename_chain_resolved.
+
+(* COMPLETENESS of the matching loop: if the run does not abort, a missing path nf IS taken off the missing list as soon
+   as some new path np is a file whose bytes carry nf's identity (the digest first recorded for nf, in that entry's
+   format) -- whatever else the session holds and in whatever order the two loops run.  (The entries of np's new
+   record are the current digests of its bytes: C04_digest_is_current.)  With pairwise distinct contents this is
+   exactly "each renamed file is matched". *)
+Theorem C17_detection_complete : forall Hb C hs t sess newp nfp np nf nfe hr r c,
+  dr_abort (detect_renames Hb C hs t sess newp nfp) = false -> In np newp -> In nf nfp -> identity_of hs nf = Some nfe ->
+  sess_find sess np = Some (hr, r) -> (forall e, In e (r_entries r) -> e_digest e = digest_text Hb (e_fmt e) c) ->
+  get C t np = Some (File c) -> digest_text Hb (e_fmt nfe) c = e_digest nfe ->
+  In nf (dr_found (detect_renames Hb C hs t sess newp nfp)).
+Proof. exact detect_renames_complete. Qed.
+Print Assumptions C17_detection_complete.
